@@ -60,6 +60,10 @@ RULE = ("cases = (automaton, representation class, option tuple (maxlen, with_wo
         "automata requested from the library, edited in place, then freely reduced "
         "enumeration on the same / a new / a different-class representation with the "
         "same generator list (both call orders); "
+        "representations whose inverse-letter matrices are not the inverses (compute_inverse="
+        "False monoid representations on both classes, copies, astype('int64') truncations, "
+        "non-multiplicative compose()) x labels / accepted words with adjacent x X pairs "
+        "(automaton_multiple labels, hand-written words incl. nested pairs, one-letter edges); "
         "representations: non-commuting non-symmetric float GL(2)/GL(3), exact "
         "unimodular int64, ProjectiveRepresentation.  non-trivial = the automaton has "
         ">=1 edge and the expected set is non-empty; distinct = distinct (route, rep "
@@ -657,6 +661,70 @@ def make_rep(rng, kind, names):
     return rep, (mats if kind.startswith("int") else None)
 
 
+LOOSE_KINDS = ("mono2", "trunc2", "scaled3", "monoproj3", "mono3", "copy2", "trunc3", "scaled2")
+
+
+def make_loose_rep(rng, kind, names):
+    """library representation in which the matrix stored under an inverse name
+    is NOT the numerical inverse of the generator's matrix, through the public
+    routes that produce such data:
+      mono      set_generator(name, M, compute_inverse=False) for every letter
+                and every inverse letter independently (a monoid representation)
+      monoproj  the same on a ProjectiveRepresentation (wrapped matrices)
+      copy      Representation(rep) of a mono representation
+      trunc     astype('int64') of a representation with non-integral entries
+                (the stored inverse is the truncated inverse)
+      scaled    compose() with a non-multiplicative map M -> 1.5 M, applied to
+                every stored matrix separately
+    The image of a word is the product of the *stored* matrices (ASSUMPTIONS);
+    nothing here is an oracle -- the judges read rep.generators back as data."""
+    from geometry_tools import representation, projective
+    dim = int(kind[-1])
+    fam = kind[:-1]
+    if fam in ("mono", "monoproj", "copy"):
+        for _ in range(50):
+            m1 = fl.generator_matrices(rng, names, dim, "float")
+            m2 = fl.generator_matrices(rng, names, dim, "float")
+            if all(np.max(np.abs(m1[g] @ m2[g] - np.eye(dim))) > 0.2 for g in names):
+                break
+        if fam == "monoproj":
+            rep = projective.ProjectiveRepresentation()
+            for g in names:
+                rep.set_generator(g, projective.Transformation(np.array(m1[g]), column_vectors=True),
+                                  compute_inverse=False)
+                rep.set_generator(fl.swapcase_inverse(g),
+                                  projective.Transformation(np.array(m2[g]), column_vectors=True),
+                                  compute_inverse=False)
+            return rep
+        rep = representation.Representation()
+        for g in names:
+            rep.set_generator(g, np.array(m1[g]), compute_inverse=False)
+            rep.set_generator(fl.swapcase_inverse(g), np.array(m2[g]), compute_inverse=False)
+        if fam == "copy":
+            rep = representation.Representation(rep)
+        return rep
+    if fam == "trunc":
+        for _ in range(50):
+            ints = fl.generator_matrices(rng, names, dim, "int")
+            base = representation.Representation()
+            for g in names:
+                base[g] = np.asarray(ints[g], dtype=float) + rng.uniform(-0.45, 0.45, size=(dim, dim))
+            rep = base.astype("int64")
+            st = {k: np.asarray(v, dtype=float) for k, v in rep.generators.items()}
+            # informative data: no stored matrix is singular, and a.A is not the identity
+            if all(abs(np.linalg.det(v)) > 0.5 for v in st.values()) and all(
+                    np.max(np.abs(st[g] @ st[fl.swapcase_inverse(g)] - np.eye(dim))) > 0 for g in names):
+                break
+        return rep
+    if fam == "scaled":
+        m1 = fl.generator_matrices(rng, names, dim, "float")
+        base = representation.Representation()
+        for g in names:
+            base[g] = np.array(m1[g])
+        return base.compose(lambda M: 1.5 * M)
+    raise ValueError(kind)
+
+
 def lower_names(labels):
     return sorted({c.lower() for lab in labels for c in lab})
 
@@ -1036,6 +1104,78 @@ def wl_wordlabels(run, rng, idx):
     run.note_class("wordlabels", family, len(letters), rt, kind)
 
 
+LOOSE_ALPHABETS = [("a", "A", "b"), ("a", "b", "A", "B"), ("a", "A")]
+
+
+def wl_loose_inverses(run, rng, idx):
+    """representations whose inverse-letter matrices are NOT the inverses of
+    the letters (LOOSE_KINDS: compute_inverse=False monoid representations,
+    copies of them, astype('int64') truncations, non-multiplicative compose())
+    driven through automata whose accepted words contain adjacent x X pairs:
+      0  automaton_multiple(2 / 3) of a random automaton over a, A, b(, B):
+         labels like 'aA', 'bAa' read as words (edge_words=True)
+      1  hand-written word labels of lengths 2..4 with cancelling pairs, also
+         nested ('baAB'), edge_words=True
+      2  one-letter labels over a, A, b, B, edge_words both ways (the pair is
+         spread over two edges)
+    The image of a returned word is the product of the matrices the
+    representation stores under its letters (ASSUMPTIONS) -- the judges
+    multiply rep.generators read back as data, so a library that simplifies
+    the word with the group law before multiplying is flagged.
+    (seeded change C06-r5-2: _word_value freely reduces the label before
+    multiplying; 'aA' gives the identity instead of generators['a'] @
+    generators['A'].)"""
+    variant = idx % 3
+    kind = LOOSE_KINDS[idx % len(LOOSE_KINDS)]
+    alphabet = LOOSE_ALPHABETS[(idx // 3) % len(LOOSE_ALPHABETS)]
+    rt = fsa_build.ROUTES[idx % NR]
+    ews, tag, L = (True,), "loose-%d" % variant, 3
+    try:
+        if variant == 0:
+            d0, start, labels0 = fl.random_automaton(rng, max_states=5, alphabet=alphabet)
+            k = 2 + (idx // 3) % 2
+            R, edges = fl.multiple_spec(Model.from_label_dict(d0, [start]), k, start)
+            d = {v: {} for v in R}
+            for (v, word), w in edges.items():
+                d[v][fl.concat(word)] = w
+            F0 = fsa_build.build(rt, d0, start, rng)
+            F = lib(run, "accepted-set", "automaton_multiple", lambda: F0.automaton_multiple(k))
+            MF, _prob = fl.snapshot(F)
+            M = Model.from_label_dict(d, [start])
+            if MF is None or fl.reachable_part(MF, start)[1] != fl.edges_of(M):
+                return run.monitor("accepted-set").skip(
+                    "automaton_multiple did not give the k-step product (C10)")
+            M = Model(MF.vertices, MF.delta, [start])
+            rt = "multiple-%d" % k
+            L = 3 if k == 2 else 2
+        elif variant == 1:
+            d, start, _labels = fsa_wordlabels.cancelling_automaton(
+                rng, tuple(sorted({x.lower() for x in alphabet})))
+            M = Model.from_label_dict(d, [start])
+            F = fsa_build.build(rt, d, start, rng)
+        else:
+            d, start, _labels = fl.random_automaton(rng, max_states=6, alphabet=alphabet)
+            M = Model.from_label_dict(d, [start])
+            F = fsa_build.build(rt, d, start, rng)
+            ews, L = (True, False), 4
+        _ctx.update(route=rt, rep=kind)
+        names = lower_names(alphabet)
+        rep = make_loose_rep(rng, kind, names)
+        run.current_case = {"route": rt, "rep": kind, "variant": variant, "start": repr(start),
+                            "label_dict": {repr(v): {l: repr(w) for l, w in nb.items()} for v, nb in d.items()},
+                            "generators": {g: np.asarray(v) for g, v in rep.generators.items()}}
+        cap = 300 if run.tier == "quick" else 1500
+        while L > 1 and fl.count_paths(M, L, start, PATH_CAP) > cap:
+            L -= 1
+        drive(run, rng, F, M, rep, None, L, full=(idx % 4 == 0) and len(M.vertices) <= 5,
+              edge_words_opts=ews, single=False, tag=tag, sample=5)
+        run.note_class("loose", variant, kind, len(alphabet))
+    except Stop:
+        pass
+    finally:
+        _ctx.update(route="ambient", rep="ambient")
+
+
 def wl_names(run, rng, idx):
     """multi-character generator names: labels are names (edge_words=False);
     with parse_simple=False also words 's1*t1' (edge_words=True); and names
@@ -1374,6 +1514,7 @@ WORKLOADS = [
     Workload("multiple-labels", wl_multiple, quick=14, thorough=400),
     Workload("generator-names", wl_names, quick=12, thorough=400),
     Workload("word-labels", wl_wordlabels, quick=12, thorough=480),
+    Workload("loose-inverses", wl_loose_inverses, quick=16, thorough=480),
     Workload("builtin", wl_builtin, quick=20, thorough=100),
     Workload("free-group", wl_free, quick=9, thorough=120),
     Workload("free-group-names", wl_free_names, quick=2, thorough=8),
